@@ -9,7 +9,7 @@ THEOREMS = ["C09_member", "C09_errors", "C09_members_wired", "C09_slash_refuted"
 def gen_set(rng):
     pods = []
     for stem in rng.sample(["pd", "app pod", "p-2", "x"], rng.randint(0, 3)):
-        sn = rng.choice([None, None, "podsvc-" + stem.replace(" ", ""), "with space"]) if rng.random() < 0.5 else None
+        sn = rng.choice([None, None, "podsvc-" + stem.replace(" ", ""), "with space", stem.replace(" ", "") + ".service", "x.service.service", stem.replace(" ", "") + "-pod", "a.pod"]) if rng.random() < 0.5 else None
         if rng.random() < 0.04:
             sn = "nested/name"
         pods.append({"stem": stem, "service_name": sn, "podname": rng.choice([None, "my" + stem.replace(" ", "")])})
@@ -25,8 +25,14 @@ def gen_set(rng):
         else:
             pod = None
         ctrs.append({"stem": stem, "pod": pod, "start": rng.choice([None, None, "yes", "no", "false", "true"]),
-                     "service_name": rng.choice([None, None, "csvc-" + stem.replace(" ", "")]), "broken": rng.random() < 0.08})
+                     "service_name": rng.choice([None, None, "csvc-" + stem.replace(" ", ""), stem.replace(" ", "") + ".service"]),
+                     "broken": rng.choice(BROKEN_KINDS) if rng.random() < 0.16 else None})
     return pods, ctrs
+
+
+# a member that fails conversion -- at the first check, or late (after every other handler has run) -- is not a member of anything
+BROKEN_KINDS = ["Rootfs=/also\n", "Volume=ghost.volume:/data\n", "ExposeHostPort=http\n", "Group=g\n", "RemapUsers=bogus\n", "Mount=type=volume,source=ghost.volume,destination=/x\n", "Volume=./rel.volume:/x:bad\n",
+                "Network=ghost.network\n", "HealthCmd=\\q\n", "PodmanArgs=\\q\n", "[Service]\nKillMode=process\n", "[Service]\nType=forking\n"]
 
 
 def pod_text(p):
@@ -34,13 +40,15 @@ def pod_text(p):
 
 
 def ctr_text(c):
-    t = "[Container]\nImage=img\n" if not c["broken"] else "[Container]\nImage=img\nRootfs=/also\n"
+    t = "[Container]\nImage=img\n"
     if c["pod"]:
         t += "Pod=%s\n" % c["pod"]
     if c["start"]:
         t += "StartWithPod=%s\n" % c["start"]
     if c["service_name"]:
         t += "ServiceName=%s\n" % c["service_name"]
+    if c["broken"]:
+        t += c["broken"]
     return t
 
 
@@ -99,8 +107,8 @@ def check(ctx, pods, ctrs, recs, label):
 
 
 def run(ctx):
-    ctx.rule = ("sets of 0-3 pods (file stems with blanks and dashes, optional ServiceName incl. one with '/', optional PodName) and 0-6 containers, each naming one of the pods, a missing pod, "
-                "a non-.pod name or none, with StartWithPod yes/no/true/false/absent, optional ServiceName, some containers broken; random file order; in-process and end to end; "
+    ctx.rule = ("sets of 0-3 pods (file stems with blanks and dashes, optional ServiceName incl. one with '/' and ones ending in .service / -pod / .pod, optional PodName) and 0-6 containers, each naming one of the pods, a missing pod, "
+                "a non-.pod name or none, with StartWithPod yes/no/true/false/absent, optional ServiceName, some containers failing conversion early or late (dangling volume/network, bad port, bad group, bad mount, bad escape, bad KillMode/Type); random file order; in-process and end to end; "
                 "non-trivial = at least one pod with a member; distinct = distinct sets")
     rng = ctx.rng
     sets = [gen_set(rng) for _ in range(ctx.volume(1500, 20000))]
